@@ -94,6 +94,23 @@ def l_radix():
             ("step", [w > 0, 0 <= t1, t1 < w, 0 <= t2, t2 < w, c1 * w + t1 == c2 * w + t2], z3.And(c1 == c2, t1 == t2))]
 
 
+@lemma("L-radix-inj", ("C02", "C06"))
+def l_radix_inj():
+    """Mixed-radix codes are injective for ANY number of keys. T(r, j) = sum_{l >= j} c(r, l) * wt(l) (tail sum), wt(j) = wt(j+1) * shape(j+1), wt(m-1) = 1,
+    0 <= c(r, l) < shape(l).  P(j): 0 <= T(r, j) < shape(j) * wt(j) [bound]  and  T(a, j) == T(b, j)  =>  forall l in [j, m): c(a, l) == c(b, l) [injectivity].
+    Downward induction on j (base j = m-1, step j+1 -> j); the step is the non-linear L-radix step lemma, which the solver re-proves inside the query."""
+    T = z3.Function("Ttail", I, I, I); c = z3.Function("cdig", I, I, I); wt = z3.Function("wtR", I, I); shp = z3.Function("shpR", I, I); mm = z3.Int("mR"); ra, rb = z3.Ints("ra rb")
+    dig = lambda r_, l_: z3.And(0 <= c(r_, l_), c(r_, l_) < shp(l_))
+    bound = lambda r_, j_: z3.And(0 <= T(r_, j_), T(r_, j_) < shp(j_) * wt(j_))
+    inj = lambda j_: z3.Implies(T(ra, j_) == T(rb, j_), z3.ForAll([l], z3.Implies(z3.And(j_ <= l, l < mm), c(ra, l) == c(rb, l))))
+    base_h = [mm >= 1, wt(mm - 1) == 1, T(ra, mm - 1) == c(ra, mm - 1), T(rb, mm - 1) == c(rb, mm - 1), dig(ra, mm - 1), dig(rb, mm - 1)]
+    step_h = [mm >= 1, 0 <= j, j < mm - 1, wt(j) == wt(j + 1) * shp(j + 1), wt(j + 1) >= 1, shp(j + 1) >= 1, dig(ra, j), dig(rb, j),
+              T(ra, j) == c(ra, j) * wt(j) + T(ra, j + 1), T(rb, j) == c(rb, j) * wt(j) + T(rb, j + 1), bound(ra, j + 1), bound(rb, j + 1), inj(j + 1)]
+    return [("base bound", base_h, z3.And(bound(ra, mm - 1), bound(rb, mm - 1))), ("base inj", base_h, inj(mm - 1)),
+            ("step bound", step_h, z3.And(bound(ra, j), bound(rb, j))), ("step weights positive", step_h, wt(j) >= 1),
+            ("step inj", step_h, inj(j))]
+
+
 # ---- step functions written from the property statement: ONE definition (contracts/specs.py), also used by the code contracts ScalarFuncs.X == step_X
 from contracts import specs as SPEC
 _S = SPEC.steps("float")
